@@ -3,8 +3,8 @@
      Model/Dupes.v      (C07)  named_imports / root_imports / ordered_imports / effective_imports
      Model/ImportTag.v  (C19)  scan / set_put / sort_pairs / set_imports
    agree on the COLLECTION: the list of (path, alias) pairs in the order the imports are fetched
-   (named part: distinct pairs sorted by path, then alias; root part: visiting order, duplicates
-   kept).  Common projection: the tagged import specs of the package as (path, alias) pairs in
+   (named part: distinct pairs sorted by path, then alias; root part: visiting order, a path imported bare several times
+   kept once - fix 4a102aa).  Common projection: the tagged import specs of the package as (path, alias) pairs in
    visiting order (files in sorted file-name order, specs in source order), alias "" = root import.
    What each model abstracts:
      Gen        starts from getImportPath's result per spec; has files with names (sorts them) and an
@@ -28,9 +28,9 @@ Definition name_set (l : list (string * string)) (acc : list (string * string)) 
   fold_left (fun s x => sadd x s) l acc.
 
 Definition core_unsorted (l : list (string * string)) : list (string * string) :=
-  name_set (filter is_named l) [] ++ filter is_root l.
+  name_set (filter is_named l) [] ++ name_set (filter is_root l) [].
 Definition core (l : list (string * string)) : list (string * string) :=
-  sort_le pair_leb (name_set (filter is_named l) []) ++ filter is_root l.
+  sort_le pair_leb (name_set (filter is_named l) []) ++ name_set (filter is_root l) [].
 
 (* ---------------------------------------------------------------- put-if-absent, three spellings *)
 Lemma sadd_existsb x : forall s, sadd x s = if existsb (pair_eqb x) s then s else s ++ [x].
@@ -126,30 +126,50 @@ Proof.
   rewrite fold_left_app. apply IH.
 Qed.
 
-Lemma visit_specs_core : forall specs names roots,
-  fold_left visit_spec specs (names, roots) =
-  (name_set (filter is_named (map spa specs)) names, roots ++ map fst (filter is_root (map spa specs))).
+(* rootImports: append if not there yet (4a102aa), on paths; the same on (path, "") pairs *)
+Definition rput (p : string) (r : list string) : list string :=
+  if existsb (String.eqb p) r then r else r ++ [p].
+Definition bare (p : string) : string * string := (p, "").
+
+Lemma rput_existsb p : forall r, existsb (String.eqb p) r = existsb (pair_eqb (bare p)) (map bare r).
 Proof.
-  induction specs as [|s r IH]; simpl; intros names roots.
-  - now rewrite app_nil_r.
-  - unfold is_named, is_root, spa at 1 3. simpl.
-    destruct (String.eqb (sp_alias s) "") eqn:E; simpl; rewrite IH.
-    + now rewrite <- app_assoc.
-    + reflexivity.
+  induction r as [|q r IH]; simpl; auto. unfold pair_eqb at 1. simpl. now rewrite Bool.andb_true_r, IH.
 Qed.
 
-Lemma roots_back : forall l, map (fun p => (p, "")) (map fst (filter is_root l)) = filter is_root l.
+Lemma rput_sadd p r : map bare (rput p r) = sadd (bare p) (map bare r).
+Proof.
+  unfold rput. rewrite sadd_existsb, <- rput_existsb.
+  destruct (existsb (String.eqb p) r); auto. now rewrite map_app.
+Qed.
+
+Lemma roots_set : forall ps r, map bare (fold_left (fun r p => rput p r) ps r) = name_set (map bare ps) (map bare r).
+Proof.
+  unfold name_set. induction ps as [|p ps IH]; simpl; intros r; auto. now rewrite IH, rput_sadd.
+Qed.
+
+Lemma visit_specs_core : forall specs names roots,
+  fold_left visit_spec specs (names, roots) =
+  (name_set (filter is_named (map spa specs)) names,
+   fold_left (fun r p => rput p r) (map fst (filter is_root (map spa specs))) roots).
+Proof.
+  induction specs as [|s r IH]; simpl; intros names roots; auto.
+  unfold is_named, is_root, spa at 1 3. simpl.
+  destruct (String.eqb (sp_alias s) "") eqn:E; simpl; now rewrite IH.
+Qed.
+
+Lemma roots_back : forall l, map bare (map fst (filter is_root l)) = filter is_root l.
 Proof.
   induction l as [|[p a] r IH]; simpl; auto.
   destruct (is_root (p, a)) eqn:E; simpl; auto.
-  unfold is_root in E. simpl in E. apply String.eqb_eq in E. subst. now rewrite IH.
+  unfold is_root in E. simpl in E. apply String.eqb_eq in E. subst. unfold bare at 1. now rewrite IH.
 Qed.
 
 Lemma gen_core rng files : is_range rng -> gen_collection rng files = core (gen_specs files).
 Proof.
   intros R. unfold gen_collection, Gen.collect, files_visited, gen_specs, core.
   rewrite visit_files_flat, visit_specs_core. simpl. unfold named_order.
-  rewrite roots_back. f_equal. apply sort_pairs_canonical. apply R.
+  change (fun p : string => (p, "")) with bare. rewrite roots_set, roots_back. simpl. f_equal.
+  apply sort_pairs_canonical. apply R.
 Qed.
 
 Definition gpa (i : Gen.import) : string * string := (i_path i, i_alias i).
@@ -206,15 +226,15 @@ Qed.
 
 Lemma dupes_core pk : map dpa (Dupes.ordered_imports pk) = core (map dpa (Dupes.imports pk)).
 Proof.
-  unfold Dupes.ordered_imports, Dupes.named_imports, Dupes.root_imports, Dupes.dedup_imports, core.
-  rewrite map_app, dupes_isort, dupes_dedup, dupes_filter_named, dupes_filter_root. reflexivity.
+  unfold Dupes.ordered_imports, Dupes.named_imports, Dupes.root_imports, Dupes.root_imports_before_4a102aa, Dupes.dedup_imports, core.
+  rewrite map_app, dupes_isort, !dupes_dedup, dupes_filter_named, dupes_filter_root. reflexivity.
 Qed.
 
 Lemma dupes_effective_core pk :
   map dpa (Dupes.effective_imports pk) = core_unsorted (map dpa (Dupes.imports pk)).
 Proof.
-  unfold Dupes.effective_imports, Dupes.named_imports, Dupes.root_imports, Dupes.dedup_imports, core_unsorted.
-  rewrite map_app, dupes_dedup, dupes_filter_named, dupes_filter_root. reflexivity.
+  unfold Dupes.effective_imports, Dupes.named_imports, Dupes.root_imports, Dupes.root_imports_before_4a102aa, Dupes.dedup_imports, core_unsorted.
+  rewrite map_app, !dupes_dedup, dupes_filter_named, dupes_filter_root. reflexivity.
 Qed.
 
 (* ---------------------------------------------------------------- ImportTag *)
@@ -228,28 +248,28 @@ Fixpoint keep_some {A B} (g : A -> option B) (l : list A) : list B :=
   end.
 Definition it_pairs gip (files : list ImportTag.file) : list (string * string) := keep_some gip (it_specs files).
 Definition it_collection gip (files : list ImportTag.file) : list (string * string) :=
-  let '(names, roots) := ImportTag.scan gip ImportTag.set_put files in
+  let '(names, roots) := ImportTag.scan gip ImportTag.set_put ImportTag.root_put files in
   ImportTag.sort_pairs names ++ map (fun s => (s, "")) roots.
 
 Lemma fold_left_map {A B C} (f : A -> C -> A) (g : B -> C) : forall l acc,
   fold_left (fun a s => f a (g s)) l acc = fold_left f (map g l) acc.
 Proof. induction l as [|s r IH]; simpl; intros acc; auto. Qed.
 
-Lemma it_scan_decl gip put gen : forall acc,
-  ImportTag.scan_decl gip put acc gen =
-  fold_left (ImportTag.scan_step gip put) (map (ImportTag.eff_spec gen) (ImportTag.gd_specs gen)) acc.
+Lemma it_scan_decl gip put rp gen : forall acc,
+  ImportTag.scan_decl gip put rp acc gen =
+  fold_left (ImportTag.scan_step gip put rp) (map (ImportTag.eff_spec gen) (ImportTag.gd_specs gen)) acc.
 Proof. intros acc. unfold ImportTag.scan_decl. apply fold_left_map. Qed.
 
-Lemma it_scan_file gip put : forall f acc,
-  ImportTag.scan_file gip put acc f =
-  fold_left (ImportTag.scan_step gip put) (flat_map (fun gen => map (ImportTag.eff_spec gen) (ImportTag.gd_specs gen)) f) acc.
+Lemma it_scan_file gip put rp : forall f acc,
+  ImportTag.scan_file gip put rp acc f =
+  fold_left (ImportTag.scan_step gip put rp) (flat_map (fun gen => map (ImportTag.eff_spec gen) (ImportTag.gd_specs gen)) f) acc.
 Proof.
   unfold ImportTag.scan_file. induction f as [|gen r IH]; simpl; intros acc; auto.
   rewrite fold_left_app, <- it_scan_decl. apply IH.
 Qed.
 
-Lemma it_scan_flat gip put : forall files acc,
-  fold_left (ImportTag.scan_file gip put) files acc = fold_left (ImportTag.scan_step gip put) (it_specs files) acc.
+Lemma it_scan_flat gip put rp : forall files acc,
+  fold_left (ImportTag.scan_file gip put rp) files acc = fold_left (ImportTag.scan_step gip put rp) (it_specs files) acc.
 Proof.
   unfold it_specs. induction files as [|f r IH]; simpl; intros acc; auto.
   rewrite fold_left_app, <- it_scan_file. apply IH.
@@ -259,22 +279,23 @@ Lemma it_is_empty a : ImportTag.is_empty a = String.eqb a "".
 Proof. now destruct a. Qed.
 
 Lemma it_steps_core gip : forall specs names roots,
-  fold_left (ImportTag.scan_step gip ImportTag.set_put) specs (names, roots) =
-  (name_set (filter is_named (keep_some gip specs)) names, roots ++ map fst (filter is_root (keep_some gip specs))).
+  fold_left (ImportTag.scan_step gip ImportTag.set_put ImportTag.root_put) specs (names, roots) =
+  (name_set (filter is_named (keep_some gip specs)) names,
+   fold_left (fun r p => rput p r) (map fst (filter is_root (keep_some gip specs))) roots).
 Proof.
-  induction specs as [|s r IH]; simpl; intros names roots.
-  - now rewrite app_nil_r.
-  - unfold ImportTag.scan_step at 2. destruct (gip s) as [[p a]|]; simpl; [|apply IH].
-    rewrite it_is_empty. unfold is_named at 1, is_root at 1. simpl.
-    destruct (String.eqb a "") eqn:E; simpl; rewrite IH.
-    + now rewrite <- app_assoc.
-    + now rewrite set_put_sadd.
+  induction specs as [|s r IH]; simpl; intros names roots; auto.
+  unfold ImportTag.scan_step at 2. destruct (gip s) as [[p a]|]; simpl; [|apply IH].
+  rewrite it_is_empty. unfold is_named at 1, is_root at 1. simpl.
+  destruct (String.eqb a "") eqn:E; simpl; rewrite IH.
+  - reflexivity.
+  - now rewrite set_put_sadd.
 Qed.
 
 Lemma it_core gip files : it_collection gip files = core (it_pairs gip files).
 Proof.
   unfold it_collection, ImportTag.scan, it_pairs, core.
-  rewrite it_scan_flat, it_steps_core. simpl. now rewrite roots_back, sort_pairs_le.
+  rewrite it_scan_flat, it_steps_core. simpl.
+  change (fun s : string => (s, "")) with bare. now rewrite roots_set, roots_back, sort_pairs_le.
 Qed.
 
 Definition ipa (i : ImportTag.import) : string * string := (ImportTag.imp_path i, ImportTag.imp_alias i).
@@ -303,7 +324,7 @@ Lemma it_imports_are_collection golist dir files imps :
   map ipa imps = it_collection ImportTag.get_import_path files.
 Proof.
   unfold ImportTag.set_imports, ImportTag.set_imports_gen, it_collection.
-  destruct (ImportTag.scan ImportTag.get_import_path ImportTag.set_put files) as [names roots].
+  destruct (ImportTag.scan ImportTag.get_import_path ImportTag.set_put ImportTag.root_put files) as [names roots].
   destruct (ImportTag.collect _ (ImportTag.sort_pairs names)) as [named|] eqn:E1; [|discriminate].
   destruct (ImportTag.collect _ roots) as [rs|] eqn:E2; [|discriminate].
   intros H. injection H as <-. rewrite map_app.
@@ -344,7 +365,7 @@ Definition ex_it_files : list ImportTag.file :=
          ImportTag.gd_specs := [sp "// mage:import two" "x/t"; sp "// mage:import" "x/r"] |} ] ].
 
 Lemma example_agree :
-  let want := [("x/t", "one"); ("x/t", "two"); ("x/z", "aa"); ("x/r", ""); ("x/r", "")] in
+  let want := [("x/t", "one"); ("x/t", "two"); ("x/z", "aa"); ("x/r", "")] in
   gen_specs ex_gen_files = map dpa (Dupes.imports ex_dupes_pkg) /\
   gen_specs ex_gen_files = it_pairs ImportTag.get_import_path ex_it_files /\
   gen_collection (@rev _) ex_gen_files = want /\
